@@ -3,14 +3,15 @@ From DV Require Import Status.
 (* the stat-cache hypothesis ("racy git"): an unchanged stat signature means unchanged content
    (the mode is part of what lstat returns and is compared directly) *)
 Definition sig_faithful (i : ientry) (x : wentry) : Prop :=
-  w_sig x = i_sig i -> e_id (w_entry x) = e_id (i_entry i).
+  w_isdir x = false -> w_sig x = i_sig i -> e_id (w_entry x) = e_id (i_entry i).
 
 Lemma check_entry_exact fm i w :
-  (forall x, w = Some x -> w_isdir x = false /\ sig_faithful i x) ->
+  (forall x, w = Some x -> sig_faithful i x) ->
   check_entry fm i w = differs fm i w.
 Proof.
-  intros H. destruct w as [x|]; [|reflexivity]. destruct (H x eq_refl) as [D F]. unfold check_entry, differs. rewrite D.
-  destruct (w_sig x =? i_sig i) eqn:E; [|reflexivity]. apply Z.eqb_eq in E. rewrite (F E), Z.eqb_refl. reflexivity.
+  intros H. destruct w as [x|]; [|reflexivity]. pose proof (H x eq_refl) as F. unfold check_entry, differs.
+  destruct (w_isdir x) eqn:D; [reflexivity|]. cbn [orb].
+  destruct (w_sig x =? i_sig i) eqn:E; [|reflexivity]. apply Z.eqb_eq in E. rewrite (F D E), Z.eqb_refl. reflexivity.
 Qed.
 
 Lemma clean_after_checkout_lemma fm t sigs p :
